@@ -199,7 +199,7 @@ func runBoundedMode(cfg *runConfig, hs []*boundedHarness, extra bool) int {
 	ev := evidence{PropertyID: cfg.prop, Tier: cfg.tier, Seed: seed, Level: "exploration",
 		Coverage: map[string]any{"checker_cmd": "/verif/check " + cfg.prop + " --tier " + cfg.tier, "technique": "bounded exhaustive check of the real function (stand-in for a contract; not a proof, nothing claimed beyond the bound)", "harnesses": cov,
 			"evaluations": evals, "distinct_nontrivial": nontriv, "exhaustive": true,
-			"rule": boundedRules(hs),
+			"rule":    boundedRules(hs),
 			"samples": samples},
 		Assumptions: []string{"bounded stand-in: nothing is claimed beyond the stated bound", "the reference implementation inside the harness (plain BFS) is trusted"},
 		WallS:       wall, Violations: nViol}
